@@ -10,12 +10,15 @@ package c14
 
 import (
 	"context"
+	"errors"
 	"fmt"
 	"os"
 	"path/filepath"
 	"sort"
 	"strings"
 	"sync"
+	"syscall"
+	"time"
 
 	ds "github.com/ipfs/go-datastore"
 
@@ -28,16 +31,16 @@ import (
 // Level is the verification level claimed for this property.
 const Level = "exploration"
 
-func materialisePool(specs []BlockSpec) ([]*Blk, error) {
-	pool := make([]*Blk, len(specs))
+func materialisePool(specs []BlockSpec) (*Mat, error) {
+	mt := &Mat{Pool: make([]*Blk, len(specs))}
 	for i, sp := range specs {
 		b, err := materialise(sp)
 		if err != nil {
 			return nil, err
 		}
-		pool[i] = b
+		mt.Pool[i] = b
 	}
-	return pool, nil
+	return mt, nil
 }
 
 // universe returns every height and metadata key a sequence mentions, plus one never used.
@@ -69,33 +72,64 @@ func universe(s Sequence) ([]uint64, []string) {
 }
 
 // doWrite performs a write operation on the store.
-func doWrite(ctx context.Context, st store.Store, op Op, pool []*Blk) error {
+func doWrite(ctx context.Context, st store.Store, op Op, mt *Mat) error {
 	switch op.K {
 	case "save_new", "save_same", "save_diff":
-		sig := append(pool[op.Dat].Sig[:0:0], pool[op.Dat].Sig...)
-		return st.SaveBlockData(ctx, pool[op.Blk].Header, pool[op.Dat].Data, &sig)
+		sig := append(mt.Pool[op.Dat].Sig[:0:0], mt.Pool[op.Dat].Sig...)
+		return st.SaveBlockData(ctx, mt.Pool[op.Blk].Header, mt.Pool[op.Dat].Data, &sig)
 	case "setheight":
 		return st.SetHeight(ctx, op.H)
 	case "state":
-		return st.UpdateState(ctx, mkState(op.St))
+		return st.UpdateState(ctx, mt.state(op))
 	case "setmeta":
-		return st.SetMetadata(ctx, op.Key, op.Val)
+		return st.SetMetadata(ctx, op.Key, mt.metaVal(op))
 	}
 	return nil
 }
 
 func isSave(k string) bool { return k == "save_new" || k == "save_same" || k == "save_diff" }
 
+// isEnvErr recognises trouble of the environment (file descriptors, memory, disk, a lock held by
+// someone else) by error identity, not by message text.
+func isEnvErr(err error) bool {
+	for _, e := range []error{syscall.EMFILE, syscall.ENFILE, syscall.ENOMEM, syscall.ENOSPC, syscall.EDQUOT, syscall.EAGAIN, syscall.EIO, syscall.EINTR, syscall.EBUSY, syscall.EACCES, syscall.EPERM, syscall.EROFS} {
+		if errors.Is(err, e) {
+			return true
+		}
+	}
+	return false
+}
+
 type seqResult struct {
 	probs  []string
 	writes int
 }
 
+func describeOp(op Op) string {
+	switch op.K {
+	case "save_new", "save_same", "save_diff":
+		return fmt.Sprintf("%s at height %d (header of pool block %d, data and signature of %d)", op.K, op.H, op.Blk, op.Dat)
+	case "setheight":
+		return fmt.Sprintf("SetHeight(%d)", op.H)
+	case "setmeta":
+		return fmt.Sprintf("SetMetadata(%q, %d bytes)", op.Key, len(op.Val)+op.Big)
+	case "state":
+		return "UpdateState"
+	}
+	return op.K
+}
+
 // runMem runs the sequence on the in-memory datastore. crashAfter < 0: no crash; every read is
-// checked and the write log is inspected. crashAfter = k: the first k durable writes succeed, the
+// checked and the write shape is recorded. crashAfter = k: the first k durable writes succeed, the
 // process dies at the next one; reads are skipped; the frozen image is then opened by a fresh
-// store and compared with the model after exactly the completed operations.
-func runMem(r *vk.Run, s Sequence, pool []*Blk, heights []uint64, keys []string, crashAfter int) seqResult {
+// store and compared with the model after exactly the completed operations, and - all-or-nothing
+// allows "all" - with that model plus the operation the crash cut; only a state that is neither is
+// a violation.
+//
+// A write that returns an error although the datastore is healthy is tolerated iff its input is one
+// a store may legitimately refuse (Model.mayRefuse); the model is then not advanced and everything
+// must read as before the call.
+func runMem(r *vk.Run, s Sequence, mt *Mat, heights []uint64, keys []string, crashAfter int) seqResult {
 	ctx := context.Background()
 	im := world.NewImage()
 	dsp := world.NewMemDS(im)
@@ -108,25 +142,30 @@ func runMem(r *vk.Run, s Sequence, pool []*Blk, heights []uint64, keys []string,
 	ck := &checker{ctx: ctx, st: st, m: m, hit: r.Hit, count: r.Count}
 	if crashAfter >= 0 {
 		ck.hit = func(string) {}
+		ck.count = func(string, int64) {}
 	}
+	// in every other sequence nothing is read right after a reopen: the first call on the new
+	// instance is then whatever the sequence does next (e.g. a SetHeight below the recorded height)
+	quietReopen := s.ID%2 == 1
 	var cut *Op
 	for i, op := range s.Ops {
 		ck.where = fmt.Sprintf("op %d %s: ", i, op.K)
 		if op.K == "reopen" {
 			// a new process over the same durable image
-			w := dsp.Writes()
 			dsp = world.NewMemDS(im)
 			if crashAfter >= 0 {
 				dsp.CrashAfter(crashAfter - res.writes)
 			}
-			_ = w
 			st = store.New(dsp)
 			ck.st = st
 			if crashAfter < 0 {
+				r.Hit("reopen-preserves-everything")
+				if quietReopen {
+					continue
+				}
 				ck.where = fmt.Sprintf("after reopen at op %d: ", i)
 				n := len(ck.probs)
-				ck.all(heights, pool, keys)
-				r.Hit("reopen-preserves-everything")
+				ck.all(heights, mt, keys)
 				if len(ck.probs) > n {
 					break
 				}
@@ -135,12 +174,12 @@ func runMem(r *vk.Run, s Sequence, pool []*Blk, heights []uint64, keys []string,
 		}
 		if !writeKinds[op.K] {
 			if crashAfter < 0 {
-				ck.read(op, pool)
+				ck.read(op, mt)
 			}
 			continue
 		}
 		before := dsp.Writes()
-		err := doWrite(ctx, st, op, pool)
+		err := doWrite(ctx, st, op, mt)
 		did := dsp.Writes() - before
 		res.writes += did
 		if err != nil {
@@ -149,10 +188,24 @@ func runMem(r *vk.Run, s Sequence, pool []*Blk, heights []uint64, keys []string,
 				cut = &o
 				break
 			}
-			ck.fail("write-ok", "%s failed on a healthy datastore: %v", op.K, err)
-			break
+			if !m.mayRefuse(op, mt) {
+				ck.fail("write-ok", "%s failed on a healthy datastore: %v", describeOp(op), err)
+				break
+			}
+			// refused: the model is not advanced; nothing may have changed
+			if crashAfter < 0 {
+				r.Count("refused_writes_tolerated", 1)
+				ck.where = fmt.Sprintf("after op %d, %s, was refused (%v): ", i, describeOp(op), err)
+				n := len(ck.probs)
+				ck.all(heights, mt, keys)
+				r.Hit("refused-write-changes-nothing")
+				if len(ck.probs) > n {
+					break
+				}
+			}
+			continue
 		}
-		m.apply(op, pool)
+		m.apply(op, mt)
 		if crashAfter < 0 && isSave(op.K) {
 			// what one SaveBlockData makes durable is recorded, not judged: how the records are written is the store's
 			// business; whether a crash between the writes can be seen is decided by the crash enumeration below
@@ -167,27 +220,47 @@ func runMem(r *vk.Run, s Sequence, pool []*Blk, heights []uint64, keys []string,
 	}
 	if crashAfter < 0 {
 		ck.where = "at the end: "
-		ck.all(heights, pool, keys)
+		ck.all(heights, mt, keys)
 		res.probs = ck.probs
 		return res
 	}
 	// crash case: a fresh store over the frozen image
-	st2 := store.New(world.NewMemDS(im))
-	ck2 := &checker{ctx: ctx, st: st2, m: m, hit: func(string) {}, count: func(string, int64) {}}
-	cutS := "none (the sequence completed)"
-	if cut != nil {
-		cutS = fmt.Sprintf("%s at height %d", cut.K, cut.H)
+	res.probs = ck.probs
+	if len(res.probs) > 0 {
+		return res
 	}
-	ck2.where = fmt.Sprintf("crash after durable write %d, operation cut: %s; after restart: ", crashAfter, cutS)
-	ck2.all(heights, pool, keys)
+	judge := func(m *Model, what string) []string {
+		st2 := store.New(world.NewMemDS(im))
+		ck2 := &checker{ctx: ctx, st: st2, m: m, hit: func(string) {}, count: func(string, int64) {}}
+		ck2.where = what
+		ck2.all(heights, mt, keys)
+		return ck2.probs
+	}
 	r.Hit("crash-state-equals-completed-ops")
-	if cut != nil && isSave(cut.K) {
+	if cut == nil {
+		res.probs = judge(m, fmt.Sprintf("crash after durable write %d (no operation cut); after restart: ", crashAfter))
+		return res
+	}
+	if isSave(cut.K) {
 		r.Hit("crash-save-all-or-nothing")
 		if _, occupied := m.Hdr[cut.H]; occupied {
 			r.Hit("crash-overwrite-all-or-nothing")
 		}
 	}
-	res.probs = append(ck.probs, ck2.probs...)
+	without := judge(m, "")
+	if len(without) == 0 {
+		r.Count("crash_cut_operation_left_nothing", 1)
+		return res
+	}
+	m2 := m.clone()
+	m2.apply(*cut, mt)
+	with := judge(m2, "")
+	if len(with) == 0 {
+		r.Count("crash_cut_operation_fully_applied", 1)
+		return res
+	}
+	head := fmt.Sprintf("crash after durable write %d inside %s; after restart the store shows neither the state without that operation nor the state with all of it. ", crashAfter, describeOp(*cut))
+	res.probs = []string{clauseOf(without[0]) + ": " + head + "Against 'not applied': " + strings.Join(trim(without, 3), " ;; ") + " || against 'fully applied': " + strings.Join(trim(with, 3), " ;; ")}
 	return res
 }
 
@@ -202,65 +275,157 @@ func closeDS(d ds.Batching) error {
 	return d.Close()
 }
 
-// runBadger runs the sequence on real Badger on disk; reopen = Close + NewDefaultKVStore.
-func runBadger(r *vk.Run, base string, s Sequence, pool []*Blk, heights []uint64, keys []string) []string {
+// envTrouble probes the environment after a failed open, without looking at the error text: is the
+// directory lock held by someone else, can a file still be created there, is the process short of
+// file descriptors?
+func envTrouble(dir string) string {
+	dbDir := filepath.Join(dir, "db", "c14")
+	if f, err := os.Open(dbDir); err == nil {
+		if err := syscall.Flock(int(f.Fd()), syscall.LOCK_EX|syscall.LOCK_NB); err != nil {
+			_ = f.Close()
+			return "the directory lock is held by another process"
+		}
+		_ = syscall.Flock(int(f.Fd()), syscall.LOCK_UN)
+		_ = f.Close()
+	} else if !os.IsNotExist(err) {
+		return "the database directory cannot be opened: " + err.Error()
+	}
+	if err := os.MkdirAll(dir, 0o755); err != nil {
+		return "cannot create a directory: " + err.Error()
+	}
+	probe := filepath.Join(dir, ".probe")
+	if err := os.WriteFile(probe, []byte("x"), 0o644); err != nil {
+		return "cannot create a file next to the database: " + err.Error()
+	}
+	_ = os.Remove(probe)
+	var lim syscall.Rlimit
+	if err := syscall.Getrlimit(syscall.RLIMIT_NOFILE, &lim); err == nil {
+		if ents, err := os.ReadDir("/proc/self/fd"); err == nil && uint64(len(ents))+64 > lim.Cur {
+			return fmt.Sprintf("%d of %d file descriptors in use", len(ents), lim.Cur)
+		}
+	}
+	return ""
+}
+
+// openBadger opens the store's default on-disk datastore. Environment trouble (recognised by error
+// identity or by probing the environment, never by message text) is retried a few times; what
+// remains is returned with env = true (inconclusive).
+func openBadger(dir string) (kvs ds.Batching, env bool, err error) {
+	for try := 0; ; try++ {
+		kvs, err = store.NewDefaultKVStore(dir, "db", "c14")
+		if err == nil {
+			return kvs, false, nil
+		}
+		why := ""
+		if !isEnvErr(err) {
+			if why = envTrouble(dir); why == "" {
+				return nil, false, err
+			}
+		}
+		if try == 3 {
+			if why != "" {
+				err = fmt.Errorf("%w (environment: %s)", err, why)
+			}
+			return nil, true, err
+		}
+		time.Sleep(300 * time.Millisecond)
+	}
+}
+
+// runBadger runs the sequence on real Badger on disk; reopen = Close + NewDefaultKVStore. The
+// second result is set when the environment, not the store, got in the way.
+func runBadger(r *vk.Run, base string, s Sequence, mt *Mat, heights []uint64, keys []string) (probs []string, inconclusive string) {
 	ctx := context.Background()
 	dir := filepath.Join(base, fmt.Sprintf("s%d", s.ID))
 	defer os.RemoveAll(dir)
-	kvs, err := store.NewDefaultKVStore(dir, "db", "c14")
+	kvs, env, err := openBadger(dir)
 	if err != nil {
-		return []string{"badger-open: " + err.Error()}
+		if env {
+			return nil, "badger open: " + err.Error()
+		}
+		return []string{"badger-open: a new database does not open: " + err.Error()}, ""
 	}
 	st := store.New(kvs)
 	m := newModel()
 	ck := &checker{ctx: ctx, st: st, m: m, hit: func(c string) { r.Hit("badger:" + c) }, count: r.Count}
-	reopen := func(where string) bool {
+	reopen := func(where string, check bool) bool {
 		if err := closeDS(kvs); err != nil {
-			ck.fail("badger-reopen", "%sClose: %v", where, err)
+			kvs = nil
+			if isEnvErr(err) {
+				inconclusive = where + "Close: " + err.Error()
+			} else {
+				ck.fail("badger-reopen", "%sClose: %v", where, err)
+			}
 			return false
 		}
-		kvs, err = store.NewDefaultKVStore(dir, "db", "c14")
+		kvs, env, err = openBadger(dir)
 		if err != nil {
-			ck.fail("badger-reopen", "%sreopen: %v", where, err)
+			kvs = nil
+			if env {
+				inconclusive = where + "reopen: " + err.Error()
+			} else {
+				ck.fail("badger-reopen", "%sthe database does not open again: %v", where, err)
+			}
 			return false
 		}
 		st = store.New(kvs)
 		ck.st = st
+		r.Hit("badger:close-reopen-preserves-everything")
+		if !check {
+			return true
+		}
 		ck.where = where
 		n := len(ck.probs)
-		ck.all(heights, pool, keys)
-		r.Hit("badger:close-reopen-preserves-everything")
+		ck.all(heights, mt, keys)
 		return len(ck.probs) == n
 	}
+	quietReopen := s.ID%8 == 4 // s.Badger means ID%4 == 0
 	ok := true
 	for i, op := range s.Ops {
 		ck.where = fmt.Sprintf("badger op %d %s: ", i, op.K)
 		if op.K == "reopen" {
-			if ok = reopen(fmt.Sprintf("badger, after close+reopen at op %d: ", i)); !ok {
+			if ok = reopen(fmt.Sprintf("badger, after close+reopen at op %d: ", i), !quietReopen); !ok {
 				break
 			}
 			continue
 		}
 		if !writeKinds[op.K] {
-			ck.read(op, pool)
+			ck.read(op, mt)
 			continue
 		}
-		if err := doWrite(ctx, st, op, pool); err != nil {
-			ck.fail("write-ok", "%s failed: %v", op.K, err)
-			ok = false
-			break
+		if err := doWrite(ctx, st, op, mt); err != nil {
+			if isEnvErr(err) {
+				inconclusive = fmt.Sprintf("badger op %d %s: %v", i, op.K, err)
+				ok = false
+				break
+			}
+			if !m.mayRefuse(op, mt) {
+				ck.fail("write-ok", "%s failed: %v", describeOp(op), err)
+				ok = false
+				break
+			}
+			r.Count("refused_writes_tolerated", 1)
+			ck.where = fmt.Sprintf("badger, after op %d, %s, was refused (%v): ", i, describeOp(op), err)
+			n := len(ck.probs)
+			ck.all(heights, mt, keys)
+			r.Hit("badger:refused-write-changes-nothing")
+			if len(ck.probs) > n {
+				ok = false
+				break
+			}
+			continue
 		}
-		m.apply(op, pool)
+		m.apply(op, mt)
 	}
 	if ok && kvs != nil {
 		ck.where = "badger, at the end: "
-		ck.all(heights, pool, keys)
-		reopen("badger, after final close+reopen: ")
+		ck.all(heights, mt, keys)
+		reopen("badger, after final close+reopen: ", true)
 	}
 	if kvs != nil {
 		_ = closeDS(kvs)
 	}
-	return ck.probs
+	return ck.probs, inconclusive
 }
 
 func clauseOf(p string) string {
@@ -271,7 +436,7 @@ func clauseOf(p string) string {
 }
 
 func runSequence(r *vk.Run, base string, s Sequence) {
-	pool, err := materialisePool(s.Pool)
+	mt, err := materialisePool(s.Pool)
 	if err != nil {
 		r.Inconclusive(fmt.Sprintf("sequence %d: cannot build blocks: %v", s.ID, err))
 		return
@@ -284,15 +449,15 @@ func runSequence(r *vk.Run, base string, s Sequence) {
 		}
 		return w
 	}
-	res := runMem(r, s, pool, heights, keys, -1)
-	onlyWriteShape := len(res.probs) == 0 // the crash enumeration is only meaningful if the crash-free run was all right
+	res := runMem(r, s, mt, heights, keys, -1)
+	crashFreeOK := len(res.probs) == 0 // the crash enumeration is only meaningful if the crash-free run was all right
 	if len(res.probs) > 0 {
 		r.Violation(clauseOf(res.probs[0]), fmt.Sprintf("sequence %d (in-memory datastore): %s", s.ID, strings.Join(trim(res.probs, 6), " ;; ")), witness(map[string]any{"datastore": "memds"}))
 	}
-	if s.Crash && onlyWriteShape {
+	if s.Crash && crashFreeOK {
 		// crash enumeration: die at every durable write of the sequence
 		for k := 0; k < res.writes; k++ {
-			cr := runMem(r, s, pool, heights, keys, k)
+			cr := runMem(r, s, mt, heights, keys, k)
 			r.Count("crash_points", 1)
 			if len(cr.probs) > 0 {
 				r.Violation("crash-"+clauseOf(cr.probs[0]), fmt.Sprintf("sequence %d: %s", s.ID, strings.Join(trim(cr.probs, 6), " ;; ")), witness(map[string]any{"datastore": "memds", "crash_after_writes": k}))
@@ -302,17 +467,19 @@ func runSequence(r *vk.Run, base string, s Sequence) {
 	}
 	r.Count("durable_writes", int64(res.writes))
 	if s.Badger {
-		if probs := runBadger(r, base, s, pool, heights, keys); len(probs) > 0 {
-			if strings.Contains(probs[0], "Cannot acquire directory lock") {
-				r.Inconclusive(fmt.Sprintf("sequence %d: %s", s.ID, probs[0]))
-			} else {
-				r.Violation("badger-"+clauseOf(probs[0]), fmt.Sprintf("sequence %d (Badger on disk): %s", s.ID, strings.Join(trim(probs, 6), " ;; ")), witness(map[string]any{"datastore": "badger"}))
-			}
+		probs, inconc := runBadger(r, base, s, mt, heights, keys)
+		if len(probs) > 0 {
+			r.Violation("badger-"+clauseOf(probs[0]), fmt.Sprintf("sequence %d (Badger on disk): %s", s.ID, strings.Join(trim(probs, 6), " ;; ")), witness(map[string]any{"datastore": "badger"}))
+		} else if inconc != "" {
+			r.Inconclusive(fmt.Sprintf("sequence %d: %s", s.ID, inconc))
 		}
 		r.Count("sequences_on_badger", 1)
 	}
 	for _, o := range s.Ops {
 		r.Count("ops_"+o.K, 1)
+		if o.Big > 0 {
+			r.Count("ops_"+o.K+"_large_value", 1)
+		}
 	}
 	r.Eval(s.abstract(), s.nontrivial(), s.sample())
 }
@@ -327,9 +494,10 @@ func trim(s []string, n int) []string {
 // Run is the check entry point.
 func Run(r *vk.Run) {
 	world.Silence()
-	r.Rule = "seeded sequences of 30-200 store operations (save at a fresh height / same header again with same or other data+signature / another header at an occupied height; SetHeight lower|equal|higher; UpdateState; SetMetadata over the node's keys d, l, last-submitted-*-height, rhb/<h>/h|d; every read on present and missing targets incl. hashes of overwritten headers; reopen) over 4-14 heights from small runs and boundary values; each sequence runs on the in-memory datastore, with a crash at every one of its durable writes (quick: for every third sequence), one in four also on Badger on disk with close+reopen; non-trivial = >=1 overwrite or reopen; distinct by operation-kind sequence"
+	r.Rule = "seeded sequences of 30-200 store operations (save at a fresh height / same header again with same or other data+signature / another header at an occupied height; blocks that commit to their data, plus irregular ones a store may refuse: height 0, no metadata, foreign signature, unrelated DataHash; SetHeight lower|equal|higher; UpdateState; SetMetadata over the node's keys d, l, last-submitted-*-height, rhb/<h>/h|d; state and metadata values up to 200 B and of 60 KiB..3 MiB; every read on present and missing targets incl. hashes of overwritten headers; reopen, in every other sequence with nothing read before the next operation) over 4-14 heights from small runs and boundary values; each sequence runs on the in-memory datastore, with a crash at every one of its durable writes (quick: for every third sequence; the state after the crash must equal the model without or with the whole cut operation), one in four also on Badger on disk with close+reopen; 24 | 200 SIGKILLs of a child writing to Badger (all-or-nothing per height; everything acknowledged before the kill reads back); non-trivial = >=1 overwrite or reopen; distinct by operation-kind sequence"
 	r.Assume("in-memory runs: Batch.Commit of the datastore double is atomic and Put is durable (checked against real Badger only by close+reopen and process kill)")
-	r.Assume("process kill, not power loss")
+	r.Assume("process kill, not power loss: writes that returned before a SIGKILL are required to be readable afterwards (measured on the unchanged tree: 300 of 300 kills), nothing is claimed about unsynced writes and a power cut")
+	r.Assume("a write that returns an error is tolerated only for inputs a store may validate (SetHeight that does not raise the height, irregular blocks, state without chain id) and only if nothing changed")
 	r.Assume("header/data encodings are those of the types package (their fidelity is C12's subject); headers are signed with the harness's key and verified with the harness's copy of the public key")
 	base := world.TempDir(vk.Root(), "C14-*")
 	defer os.RemoveAll(base)
@@ -344,11 +512,13 @@ func Run(r *vk.Run) {
 	}
 	r.Require("read-block", int64(n)*10)
 	r.Require("read-by-hash", int64(n)*10)
+	r.Require("read-by-hash-overwritten", int64(n)*5)
+	r.Require("read-large-value", int64(n)/4)
 	r.Require("read-signature", int64(n)*10)
 	r.Require("read-state", int64(n))
 	r.Require("read-metadata", int64(n)*5)
 	r.Require("read-missing", int64(n)*10)
-	r.Require("height-running-max", int64(n))
+	r.Require("height-only-grows", int64(n))
 	r.Require("save-write-shape-observed", int64(n)*5)
 	r.Require("reopen-preserves-everything", int64(n))
 	r.Require("crash-state-equals-completed-ops", int64(n)*3)
@@ -364,7 +534,8 @@ func Run(r *vk.Run) {
 		go func() {
 			defer wg.Done()
 			for s := range ch {
-				runSequence(r, base, s)
+				s := s
+				r.Guard(map[string]any{"sequence": s}, func() { runSequence(r, base, s) })
 			}
 		}()
 	}
